@@ -76,8 +76,8 @@ fn to_py(core: &Core, ind: usize) -> String {
         Core::DocStr { string } => format!("\"\"\"{string}\"\"\""),
         Core::Str { string } => format!("\"{string}\""),
         Core::FStr { string } => format!("f\"{string}\""),
-        Core::Int { int } => int.clone(),
-        Core::ENum { num, exp } => format!("({num} * 10 ** {exp})"),
+        Core::Int { int } => decimal(int),
+        Core::ENum { num, exp } => format!("({} * 10 ** {})", decimal(num), decimal(exp)),
         Core::Float { float } => float.clone(),
         Core::Bool { boolean } => String::from(if *boolean { "True" } else { "False" }),
 
@@ -473,6 +473,16 @@ fn binary(core: &Core, left: &Core, op: &str, right: &Core, ind: usize) -> Strin
         operand(left, ind, left_min),
         operand(right, ind, right_min)
     )
+}
+
+/// Python does not permit leading zeros in decimal integer literals.
+fn decimal(int: &str) -> String {
+    let trimmed = int.trim_start_matches('0');
+    if trimmed.is_empty() || !trimmed.starts_with(|c: char| c.is_ascii_digit()) {
+        format!("0{trimmed}")
+    } else {
+        String::from(trimmed)
+    }
 }
 
 fn indent(amount: usize) -> String {
